@@ -293,6 +293,12 @@ func runC17(p *core.Program, r *core.Report) {
 	if d, retStatus := cliDriver(p); d != nil && cli.charGen != nil && cli.wlGen != nil {
 		checkCLIGuards(p, r, d, retStatus, inits)
 		checkCLIHelperGuards(p, r)
+		// "a refused recipe exits with status 1": the glue turns a Generate() *error* into status 1; a panic in
+		// the library would end the process with status 2 instead. So the generators refuse by returning an
+		// error, never by panicking (= C13 R13.1/R13.2/R13.4 for the two Generate methods)
+		borrowSelected(p, r, runC13, "R17.4", func(o core.Obligation) bool {
+			return o.Rule == "R13.1" || o.Rule == "R13.2" || o.Rule == "R13.4"
+		})
 	}
 }
 
